@@ -96,7 +96,9 @@ RULES = [
     ('nc_d-400_sa', '10', ALL, lambda c: c.v('5') + c.v('6') + c.v('7d') + c.v('8') + c.v('9'), NC + ' Schedule A line 10'),
     ('nc_d-400_child_deduction_wkst', '2', ALL, lambda c: c.x('nc_d-400.6'), NC + ' child deduction worksheet line 2'),
     ('nc_d-400_child_deduction_wkst', '5', ALL, lambda c: c.v('3') * c.v('4'), NC + ' child deduction worksheet line 5'),
-    ('nc_d-400_consumer_use_tax_wkst', '4', ALL, lambda c: c.v('2') - c.v('3'), NC + ' consumer use tax worksheet line 4'),
+    ('nc_d-400_consumer_use_tax_wkst', '4', (2021, 2023), lambda c: c.v('2') - c.v('3'), NC + ' consumer use tax worksheet line 4'),
+    ('nc_d-400_consumer_use_tax_wkst', '6', (2022,), lambda c: c.v('2') + c.v('4') - c.v('5'), NC + ' 2022 consumer use tax worksheet line 6 (use tax of both periods less the credit)'),
+    ('8606', '17', ALL, lambda c: c.v('11'), 'Form 8606 line 17: if you completed Part I, enter the amount from line 11'),
     ('nc_d-400_ss', '15', (2021,), lambda c: sum(c.v(str(k)) for k in range(1, 15)), NC + ' Schedule S total additions'),
     ('nc_d-400_ss', '16', Y22, lambda c: sum(c.v(str(k)) for k in range(1, 16)), NC + ' Schedule S total additions'),
 ]
